@@ -91,7 +91,11 @@ DNuGet ==
 
 (* ------------------------------------------------------------------- PyPI *)
 \* PEP 440.  Semantic value [epoch, rel, pre, post, dev, local] x spelling variant sp.
-LocalTexts == <<"1", "abc", "abc.1", "1.abc", "abd", "2", "10", "abc.10", "abc.9", "01", "010", "02">>     \* the last three: numeric segments with leading zeros (compared as integers)
+LocalTexts == <<"1", "abc", "abc.1", "1.abc", "abd", "2", "10", "abc.10", "abc.9", "01", "010", "02", "abc.1.2">>     \* the last three: numeric segments with leading zeros (compared as integers)
+\* alternative spellings of the separators inside a local version (PEP 440 normalises - and _ to .); the last one mixes both
+LocalAlt1 == <<"1", "abc", "abc-1", "1-abc", "abd", "2", "10", "abc-10", "abc-9", "01", "010", "02", "abc-1_2">>
+LocalAlt2 == <<"1", "abc", "abc_1", "1_abc", "abd", "2", "10", "abc_10", "abc_9", "01", "010", "02", "abc_1-2">>
+LocalSpelled(loc, sp) == IF sp = 1 THEN LocalAlt1[loc] ELSE IF sp = 2 THEN LocalAlt2[loc] ELSE LocalTexts[loc]
 \* local segments: alphabetic ranks abc=1 < abd=2
 LocalKey(i) == CASE i = 0 -> <<>>
   [] i = 1 -> <<[k |-> "n", n |-> 1, r |-> 0]>>
@@ -106,6 +110,7 @@ LocalKey(i) == CASE i = 0 -> <<>>
   [] i = 10 -> <<[k |-> "n", n |-> 1, r |-> 0]>>
   [] i = 11 -> <<[k |-> "n", n |-> 10, r |-> 0]>>
   [] i = 12 -> <<[k |-> "n", n |-> 2, r |-> 0]>>
+  [] i = 13 -> <<[k |-> "s", n |-> 0, r |-> 1], [k |-> "n", n |-> 1, r |-> 0], [k |-> "n", n |-> 2, r |-> 0]>>
 PhaseText(ph, sp) == CASE ph = 1 -> (IF sp = 0 THEN "a" ELSE IF sp = 1 THEN "alpha" ELSE "A")
                        [] ph = 2 -> (IF sp = 0 THEN "b" ELSE IF sp = 1 THEN "beta" ELSE "B")
                        [] ph = 3 -> (IF sp = 0 THEN "rc" ELSE IF sp = 1 THEN "c" ELSE "pre")
@@ -119,7 +124,7 @@ PyText(e, rel, pre, post, dev, loc, sp) ==
         ELSE IF sp = 1 THEN "-" \o IdT(post) ELSE "_rev" \o (IF post = 0 THEN "" ELSE "." \o IdT(post)))
   \o (IF dev = -1 THEN "" ELSE IF sp = 0 THEN ".dev" \o IdT(dev)
         ELSE IF sp = 1 THEN "dev" \o (IF dev = 0 THEN "" ELSE IdT(dev)) ELSE "-DEV-" \o IdT(dev))
-  \o (IF loc = 0 THEN "" ELSE "+" \o LocalTexts[loc])
+  \o (IF loc = 0 THEN "" ELSE "+" \o LocalSpelled(loc, sp))
 PyRec(e, rel, pre, post, dev, loc, sp) ==
   [sys |-> "PyPI", text |-> PyText(e, rel, pre, post, dev, loc, sp), base |-> PyText(e, rel, pre, post, dev, loc, sp),
    ref |-> TRUE, kind |-> "pep440",
@@ -128,7 +133,7 @@ PyRec(e, rel, pre, post, dev, loc, sp) ==
 PyPre == {<<>>, <<1, 0>>, <<1, 1>>, <<2, 0>>, <<3, 1>>}
 PySemQuick ==
   {<<0, <<1, 0>>, p, po, d, l>> : p \in PyPre, po \in {-1, 0, 1}, d \in {-1, 0, 1}, l \in {0, 2}}
-  \cup {<<0, <<1, 0>>, <<>>, -1, -1, l>> : l \in 1..12}
+  \cup {<<0, <<1, 0>>, <<>>, -1, -1, l>> : l \in 1..13}
   \cup {<<0, <<1, 0>>, <<1, 1>>, 0, 1, l>> : l \in {1, 3}}
   \cup {<<e, r, <<>>, -1, -1, 0>> : e \in {0, 1}, r \in {<<1>>, <<1, 0, 0>>, <<1, 0, 1>>, <<1, 1>>, <<0, 9>>, <<1, 0, 0, 0>>, <<1, 0, 0, 1>>, <<2>>}}
   \cup {<<1, <<0, 9>>, <<2, 0>>, -1, 0, 0>>}
@@ -140,6 +145,7 @@ PySem == IF Tier = "quick" THEN PySemQuick ELSE PySemThorough
 DPyPI == {PyRec(s[1], s[2], s[3], s[4], s[5], s[6], 0) : s \in PySem}
          \cup {PyRec(s[1], s[2], s[3], s[4], s[5], s[6], sp) :
                  s \in {t \in PySemQuick : t[6] \in {0, 2} /\ (t[4] # 1 \/ t[5] # 1)}, sp \in {1, 2}}
+         \cup {PyRec(0, <<1, 0>>, <<>>, -1, -1, l, sp) : l \in {3, 4, 8, 13}, sp \in {1, 2}}
 
 (* --------------------------------------------------------------- RubyGems *)
 \* Gem::Version grammar: [0-9]+(\.[0-9a-zA-Z]+)*(-[0-9A-Za-z-]+(\.[0-9A-Za-z-]+)*)?
